@@ -29,6 +29,15 @@ CLAIMS = {
              "returns a possibly stale route; insert-then-accept pairing. Not decided: that incremental updates compute the same values as recomputation.",
         note="Assumes CHA resolution of workspace traits, closures may-run at construction site, calls through stored dyn Fn fields not followed.",
         ref="DESIGN.md §5 C05"),
+    "C07": dict(
+        technique="MIR loop-guard must-pass analysis (entry + per-iteration), finite-ordering evaluation of termination predicates, poll inventory",
+        text="Static loop-guard analysis: in every EvolutionStrategy::run termination and quota are polled before the search of every generation and a "
+             "positive poll leaves the loop; MaxGeneration fires iff generation >= limit (evaluated over <,=,>); composite criteria fire on any member; "
+             "the insertion loop polls the quota every round and every path to return passes finalize_insertion_ctx (leftovers -> unassigned); the "
+             "long-running loops still poll the quota and quota wrappers keep the wrapped quota; estimates are clamped. Not decided: validity of the "
+             "returned solution itself (C01-C03 value level), wall-clock timing.",
+        note="Assumes monotone external Quota implementations; closures analysed at construction site.",
+        ref="DESIGN.md §5 C07"),
     "C08": dict(
         technique="finite-ordering abstract interpretation of MIR (exhaustive over orderings) + must-call / ordering dominance",
         text="The incumbent-replacement code of all three populations is evaluated exhaustively over the finite space of abstract orderings "
@@ -36,6 +45,30 @@ CLAIMS = {
              "extend ≺ sort(total_order(a,b)) ≺ truncate order is checked by dominance. Not decided: size bounds, selection non-emptiness, seeded-solve corollary.",
         note="Trusted: std Vec::sort_by/dedup_by/truncate contracts; total_order is a total preorder (C09).",
         ref="DESIGN.md §5 C08"),
+    "C09": dict(
+        technique="finite-ordering abstract interpretation of comparator folds + same-index def-use analysis of element-wise operators",
+        text="Structure of the order implementations: the InsertionCost fold is evaluated over Less/Equal/Greater (Equal continues, otherwise breaks with "
+             "that order), operands are self[i]/other[i] compared only by f64::total_cmp with zero padding over 0..max(len), PartialOrd/PartialEq "
+             "delegate to Ord, Add/Sub are element-wise with the right operator; Goal::total_order folds layers front to back calling each with (a,b); "
+             "fitness enumerates the same layers. Not decided: laws of multi-objective layers, (x+y)-y == x numerically, sign of zero.",
+        note="A lexicographic extension of a total order with fixed padding is a total order; f64::total_cmp is total (trusted).",
+        ref="DESIGN.md §5 C09"),
+    "C14": dict(
+        technique="field privacy + paired-mutation must-pass analysis + workspace-wide field-store scan + type-level independence argument",
+        text="Encapsulation and pairing: representation fields private; every Tour method that structurally mutates `activities` mutates `jobs` on every "
+             "path in the matching direction; Activity.job is never assigned or mutably borrowed after construction anywhere; the registry's available "
+             "sets are mutated only by use_actor(remove)/free_actor(insert) with propagated results and get_route is gated on use_actor; deep copies "
+             "share only immutable Arc data. Not decided: depot ends, leg enumeration, counts (index arithmetic).",
+        note="Trusted: std collection contracts, safe-Rust ownership (an owned value built from &self can only clone).",
+        ref="DESIGN.md §5 C14"),
+    "C15": dict(
+        technique="effect reachability over the CHA call graph + exhaustive finite-ordering evaluation of the reducer + closure capture typing",
+        text="Purity of insertion evaluation under the deterministic configuration (no RNG/clock/IO/interior-mutability/thread-local/logger effect "
+             "reachable; exhaustive leg mode proved by evaluating get_sample_data over the enum variant), parallel closures are shared Fn closures "
+             "without mutable captures, the reducer is evaluated exhaustively over {Success,Failure}^2 x {<,=,>} and evaluate_all wiring is checked. "
+             "One known finding (multi-job permutation sampling). Not decided: order-insensitivity of cost pruning, validity of full runs per layout.",
+        note="Calls through stored Arc<dyn Fn> feature closures are not followed; ties between equal costs may resolve differently.",
+        ref="DESIGN.md §5 C15"),
 }
 
 NOT_APPLICABLE = {
